@@ -379,7 +379,15 @@ Definition go_loop24_seg (thresh ithresh hevt : Z) (l : list Z) : list Z :=
 
 (** precomputeFilterStrengths: (FLimit, FILevel, HevThresh) of a (segment, i4x4) pair;
     FLimit = 0 means "no filtering" *)
-Definition go_fstrength (h : frame_hdr) (seg : Z) (is4 : bool) : Z * Z * Z :=
+Definition go_ilevel (level sharp : Z) : Z :=
+  let il := level in
+  let il := if 0 <? sharp then
+              let il := if 4 <? sharp then asr il 2 else asr il 1 in
+              if 9 - sharp <? il then 9 - sharp else il
+            else il in
+  if il <? 1 then 1 else il.
+
+Definition go_level (h : frame_hdr) (seg : Z) (is4 : bool) : Z :=
   let sg := fh_seg h in let lf := fh_lf h in
   let base := if sg_enabled sg then
                 (if sg_abs sg then nthZ (sg_lf sg) seg 0 else nthZ (sg_lf sg) seg 0 + lf_level lf)
@@ -387,15 +395,14 @@ Definition go_fstrength (h : frame_hdr) (seg : Z) (is4 : bool) : Z * Z * Z :=
   let level := if lf_delta_enabled lf
                then base + nthZ (lf_ref lf) 0 0 + (if is4 then nthZ (lf_mode lf) 0 0 else 0)
                else base in
-  let level := if level <? 0 then 0 else if 63 <? level then 63 else level in
+  if level <? 0 then 0 else if 63 <? level then 63 else level.
+
+Definition go_fstrength (h : frame_hdr) (seg : Z) (is4 : bool) : Z * Z * Z :=
+  let level := go_level h seg is4 in
+  let sharp := lf_sharp (fh_lf h) in
   if 0 <? level then
-    let il := level in
-    let il := if 0 <? lf_sharp lf then
-                let il := if 4 <? lf_sharp lf then asr il 2 else asr il 1 in
-                if 9 - lf_sharp lf <? il then 9 - lf_sharp lf else il
-              else il in
-    let il := if il <? 1 then 1 else il in
-    (2 * level + il, il, if 40 <=? level then 2 else if 15 <=? level then 1 else 0)
+    (2 * level + go_ilevel level sharp, go_ilevel level sharp,
+     if 40 <=? level then 2 else if 15 <=? level then 1 else 0)
   else (0, 0, 0).
 
 (** ParseQuant: the six factors of a segment *)
